@@ -1301,7 +1301,13 @@ func (e *Exec) convWrapOK(from, to types.Type) bool {
 	if !ok1 || !ok2 {
 		return false
 	}
-	key := "conv:" + fb.Name() + "->" + tb.Name()
+	norm := func(b *types.Basic) string {
+		if int(b.Kind()) < len(types.Typ) && types.Typ[b.Kind()] != nil {
+			return types.Typ[b.Kind()].Name() // byte -> uint8, rune -> int32
+		}
+		return b.Name()
+	}
+	key := "conv:" + norm(fb) + "->" + norm(tb)
 	for _, w := range e.contract.WrapOK {
 		if w == key {
 			return true
